@@ -265,3 +265,14 @@ type Meta struct {
 }
 
 var Metas = map[string]Meta{}
+
+// scopeGuard replaces instance-count floors for rules whose instance counts
+// legitimately change under refactoring (sites may appear and disappear): the
+// rule is non-vacuous as long as it scanned a scope of plausible size.
+func (c *Ctx) scopeGuard(rule string, n, min int, what string) {
+	if n >= min {
+		c.R.Okf(rule, "-", "scope", "-", fmt.Sprintf("%d %s were scanned (at least %d expected)", n, what, min))
+		return
+	}
+	c.R.Undecf(rule, "-", "scope", "-", "the rule must scan a scope of plausible size", fmt.Sprintf("only %d %s: entry points moved or the call graph is broken", n, what))
+}
